@@ -66,6 +66,10 @@ def draw_cfg(rng, *, jac_modes=("callable",), small=True, allow_scaler=True, all
     cfg["jac"] = choice(rng, jac_modes)
     if rng.random() < 0.15:
         cfg["args"] = True
+    if rng.random() < 0.12:
+        cfg["env_reuse_buf"] = True
+    if rng.random() < 0.12:
+        cfg["env_scribble"] = True
     if rng.random() < 0.2:
         cfg["bounds_style"] = "list_none"
     if allow_scaler and rng.random() < 0.25:
